@@ -129,12 +129,9 @@ func wideHistories(run *hx.Run, n, maxOps int) {
 	}
 }
 
-// gatewayRows: the gateway-services table as gateway|service|kind rows
+// gatewayRows: the raw gateway-services table as gateway|service|kind rows
 func gatewayRows(w *storex.World) []string {
-	_, gs, err := w.Store().DumpGatewayServices(nil)
-	if err != nil {
-		return nil
-	}
+	gs := w.Store().VerifC06GatewayServiceRows()
 	out := make([]string, 0, len(gs))
 	for _, g := range gs {
 		out = append(out, g.Gateway.Name+"|"+g.Service.Name+"|"+string(g.GatewayKind))
